@@ -73,6 +73,16 @@ class Cap:
         m = re.findall(r"\.([a-z_]+)\)?@Some", a) or re.findall(r"take\([^()]*\.([a-z_]+)\)", a) or re.findall(r"\.([a-z_]+)\b", a)
         return m[-1] if m else None
 
+    def _puts_back(self, f, field, rhs):
+        """the stored value is Some(v) with v the payload of `self.<field>.take()` taken earlier in the same function"""
+        S = self.sym(f)
+        ops = rhs.get("ops", [])
+        if not ops:
+            return False
+        v = S.val(ops[0])
+        return re.search(r"Option::<T>::take\([^()]*\.%s\)\)?@Some\.0" % re.escape(field), v) is not None or \
+            (rhs["rv"] == "use" and re.search(r"Option::<T>::take\([^()]*\.%s\)$" % re.escape(field), v) is not None)
+
     def slot_setters(self, field):
         """functions that store Some(..) (anything but a None aggregate) into a field with this name,
         or build the owning struct with a non-None operand for it"""
@@ -86,6 +96,8 @@ class Cap:
                     r = s["rhs"]
                     if names and names[-1] == field:
                         if not (r["rv"] == "agg" and r.get("variant") == "None"):
+                            if self._puts_back(f, field, r):
+                                continue  # `let x = self.slot.take(); ..; self.slot = Some(x)`: the slot is restored, not armed
                             out.append((f, b["id"], "assigns %s" % field))
                     if r["rv"] == "agg" and r.get("adt") and r.get("variant") not in ("None", "Some"):
                         adt = self._adt(f, r["adt"])
